@@ -17,6 +17,9 @@ import json
 import random
 from concurrent.futures import ThreadPoolExecutor
 
+import os
+
+import c19_params
 import vlib
 
 VALID = (1, 2, 4, 8, 16, 32, 64)
@@ -93,6 +96,26 @@ def gen_exhaustive(triple, length, kinds, rng):
         if key not in seen:      # "repeat"/"part" fall back to a fresh value when there is nothing to repeat: drop duplicates
             seen.add(key)
             out.append(g.finish(execute=(len(out) // 16) % 4 if len(out) % 16 == 0 else None))
+    return out
+
+
+def gen_boundary():
+    """The case splits of the proofs, systematically: every pool size p = 0..64 (p distinct 1-byte constants, no gaps) x every
+    size s of the next constant (all (p mod 64, s) cases of align_up_diff and of the if-chain of ConstPool_addGap), followed by
+    two fresh constants of every size in descending order (gap re-use in every class, several gaps of one class, appends)."""
+    out = []
+    for p in range(0, 65):
+        for s in (2, 4, 8, 16, 32, 64):
+            g = SeqGen(None)
+            for i in range(p):
+                g.add(1, bytes([i + 1]))
+            g.add(s, g.fresh(s))
+            g.lines += ["Q", "F"]
+            for rep in range(2):
+                for z in (32, 16, 8, 4, 2, 1):
+                    g.add(z, bytes([200 + rep * 8 + z.bit_length()]) if z == 1 else g.fresh(z))
+            k = (p * 6 + s.bit_length())
+            out.append(g.finish(embed=(k % 8, p % 7) if k % 3 == 0 else None, execute=k % 4 if k % 5 == 0 else None))
     return out
 
 
@@ -499,14 +522,30 @@ def run(ck):
 
     # the stages are independent: theorems (make + coqc), sanitizer build and the streams run concurrently
     bg = ThreadPoolExecutor(max_workers=4)
-    f_coq = bg.submit(ck.coq_properties)
+    def coq_all():
+        ck.coq_properties()
+        # translator tie: the structural constants are re-extracted from the source of VERIF_REPO and the generated
+        # coq/gen/C19_Params.v (src_params = model_params) is re-checked by coqc (own regen: only this file is compiled)
+        par, problems = c19_params.extract(vlib.REPO)
+        text = c19_params.coq_text(par)
+        committed = os.path.join(vlib.COQ, "gen", "C19_Params.v")
+        same = os.path.exists(committed) and open(committed).read() == text
+        wdir = os.path.join(ck.work, "gen")
+        os.makedirs(wdir, exist_ok=True)
+        open(os.path.join(wdir, "C19_Params.v"), "w").write(text)
+        rc, out, err = vlib.sh(["coqc", "-Q", os.path.join(vlib.COQ, "theories"), "Verif", "-Q", wdir, "VerifGen", "-w", "-all",
+                                os.path.join(wdir, "C19_Params.v")], cwd=wdir, timeout=300)
+        ok = rc == 0 and "Closed under the global context" in out
+        ck.obligations.append({"name": "C19_params_ok", "ok": ok, "assumptions": [] if ok else None})
+        return {"same_as_committed_snapshot": same, "ok": ok, "problems": problems + c19_params.differences(par), "log": (out + err)[-600:]}
+    f_coq = bg.submit(coq_all)
     f_asan = bg.submit(ck.build_harness, "c19", ["c19_harness.cpp"], "asan")
 
     rng = random.Random(ck.seed * 7919 + 19)
     quick = ck.tier == "quick"
-    seqs = gen_fixed()
+    seqs = gen_fixed() + gen_boundary()
     n_fixed = len(seqs)
-    dist = {"fixed_sequences": n_fixed}
+    dist = {"fixed_sequences": n_fixed, "of_which_boundary_sequences_pool_size_0_to_64_times_6_sizes": 65 * 6}
     # bounded-exhaustive
     rot = ck.seed % len(TRIPLES)
     triples = TRIPLES[rot:] + TRIPLES[:rot]
@@ -678,8 +717,12 @@ def run(ck):
     if skipped:
         ck.notes.append("%d sequences were not executed by the implementation because their harness process died or hung" % skipped)
 
-    f_coq.result()
+    tr = f_coq.result()
     bg.shutdown()
+    if not tr["ok"]:
+        ck.violation("C19/translator/source-parameters", "the structural constants extracted from constpool.{h,cpp} are not the ones the model is built from "
+                     "(coq/gen/C19_Params.v: src_params = model_params fails): %s" % ("; ".join(tr["problems"]) or tr["log"]),
+                     {"broken": "translator tie C19_params_ok: " + "; ".join(tr["problems"]), "log": tr["log"]}, no_input=True)
     ck.log("theorems: %d, failed: %d" % (len(ck.obligations), len(ck.proof_failures())))
     if first_corr is not None and not any(not v["no_input"] for v in ck.violations):
         lines, x, y = first_corr
@@ -687,6 +730,8 @@ def run(ck):
                      "history among %d disagreeing sequences" % (lines[-1][:80], x[:120], y[:120], disagreements),
                      {"commands": lines, "impl": x, "model": y, "broken": "correspondence of ConstPoolModel.v (coq/theories/ConstPool) with /repo"}, no_input=True)
     for o in ck.proof_failures():
+        if o["name"] == "C19_params_ok":
+            continue
         ck.violation("C19/proof/" + o["name"], "theorem %s no longer checks (%s)" % (o["name"], getattr(ck, "coq_log", "")[-800:]),
                      {"broken": "theorem " + o["name"], "file": "coq/theories/Properties/Properties_C19.v"}, no_input=True)
 
@@ -699,8 +744,17 @@ def run(ck):
                  "(bounded exhaustive), random sequences of <= 200 adds over a small value alphabet (repeats, parts of wider constants, widened, invalid sizes); "
                  "a sequence counts as non-trivial when, judged from the implementation's answers alone, at least one add re-used a gap, was served from a part of a "
                  "wider constant or hit an identical earlier constant (distinct add-lists counted)",
+         "proved_vs_compared": {
+             "proved_in_coq_for_all_histories": "every theorem listed under `theorems` (universally quantified over histories / states; bounded statements: none; "
+                                                "vm_compute is used only in the witness/example theorems)",
+             "compared_on_every_generated_history": "offset/error of every add, accessors and image at every Q/F, label offset + section size + image at every E, "
+                                                    "bytes read on the host at every X: implementation vs extracted model, all %d histories" % len(seqs),
+             "judged_on_the_implementation_answers": "python monitor: all %d histories; extracted Coq judge: %d transcripts (quick: random histories longer than 60 adds "
+                                                     "1 in 4; thorough: random histories 1 in 4); ASan/UBSan: %d histories (all fixed+boundary ones, every %dth other)"
+                                                     % (len(seqs), n_judged, len(sub), step),
+             "re_extracted_from_source": "structural constants of constpool.{h,cpp} (tools/c19_params.py -> coq/gen/C19_Params.v, lemma C19_params_ok re-checked by coqc)"},
          "samples": samples, "sequences": len(seqs), "commands": total_lines, "answers_judged_by_monitor": judged,
-         "model_vs_impl_disagreeing_sequences": disagreements, "adds_served_as": served, "model_path_counters": quirk, "sequences_also_run_under_asan_ubsan": len(sub), "transcripts_judged_by_extracted_coq_judge": n_judged, "input_distribution": dist},
+         "model_vs_impl_disagreeing_sequences": disagreements, "adds_served_as": served, "model_path_counters": quirk, "sequences_also_run_under_asan_ubsan": len(sub), "translator": {k: tr[k] for k in ("same_as_committed_snapshot", "ok", "problems")}, "transcripts_judged_by_extracted_coq_judge": n_judged, "input_distribution": dist},
         assumptions=["the C++ harness calls the real ConstPool::add/fill/reset/size/alignment/min_item_size and embed_const_pool/_new_const of /repo's working tree",
                      "theorems are about the Gallina model; the model is tied to the code by the differential run of this check (exact offsets, errors, accessors, byte images)",
                      "the per-size red-black tree is modelled as a key-sorted list (set semantics; the tree itself is C18's subject); allocation never fails (C15's subject)",
